@@ -282,6 +282,7 @@ pub struct Sim {
     pub path_may_migrate: [bool; 2],
     pub time_cap: Option<u64>,
     pub stop_requested: bool,
+    pub debug_timers: bool,
     pub model_trace: bool,
     pub model_ops: Vec<String>,
     pub model_impl: Vec<String>,
@@ -375,6 +376,7 @@ impl Sim {
             path_may_migrate: [false, true],
             time_cap: None,
             stop_requested: false,
+            debug_timers: std::env::var("VERIF_SIM_TIMERDBG").is_ok(),
             model_trace: false,
             model_ops: Vec::new(),
             model_impl: Vec::new(),
@@ -663,6 +665,10 @@ impl Sim {
             let remote_before = self.nodes[node].conns[&ch].conn.remote_address();
             self.nodes[node].conns.get_mut(&ch).unwrap().conn.handle_event(ev);
             let remote_after = self.nodes[node].conns[&ch].conn.remote_address();
+            if self.debug_timers {
+                let a = self.nodes[node].conns[&ch].conn.verif_snapshot();
+                eprintln!("DBG t={} node {node} after rx {len}B: loss_timer {:?} inflight_ae {} bytes {} sp2 last_ae {:?} has_in_flight {} largest_acked {:?} pto_count {} state {}", nowoff, a.timers[0].map(|t| self.off(t)), a.path.in_flight_ack_eliciting, a.path.in_flight_bytes, a.spaces[2].time_of_last_ack_eliciting_packet.map(|t| self.off(t)), a.spaces[2].sent_in_flight, a.spaces[2].largest_acked, a.pto_count, a.state);
+            }
             if remote_after != remote_before {
                 // new path: its budget starts with the datagram that revealed it
                 let n = &mut self.nodes[node];
